@@ -12,7 +12,6 @@ NOT_APPLICABLE = {
     "C09": "program output under forced collection schedules is a whole-process property (interpreter/runtime + conservative stack scanning via setjmp), not encodable; the allocator-level arithmetic it rests on is the subject of the C10 slice.",
     "C02": "observational equivalence across optimisation levels quantifies over whole programs; the separable rewriting kernel (peephole on expression trees, harness/c02_peep.c) was attempted and symbolic execution did not finish in 500 s (format-string-driven tree walkers and linear table searches with symbolic results in foam.c). The folding of builtin calls with constant operands -- the arithmetic content of the optimiser -- is decided under C04.",
     "C14": "layout independence compares the parse trees of two renderings of a program: it needs the scanner, lineariser and the generated parser (axl.z, ~10 kLOC of table-driven code over heap token lists) run symbolically on two related symbolic texts; beyond reach. The lineariser's separator clean-up (linXSep) is decided for memory safety under C07.",
-    "C16": "the property is about generated C/Lisp compiling and linking with foreign code. The one separable kernel, identifier mangling (gc0ValidIdInBuf, harness/c16_names.c), was attempted: the SAT back end ran out of 10 GB in the array theory (127-entry translation tables indexed by symbolic characters, output written at symbolic positions); no verdict, so it is not claimed.",
     "C12": "the oracle is execution of generated Java on a JVM against foamj; no symbolic engine for Java (JBMC) in this image and genjava.c has no separable arithmetic kernel.",
     "C13": "session state spread over symbol tables, interpreter globals and the undo log across steps of the whole compiler; the only leaf (scanIsContinued) has no independent specification; its memory safety is covered under C07.",
 }
